@@ -642,14 +642,14 @@ class DCM(np.ndarray):
                [-0.29531805, -0.5473806 ,  0.        ]])
 
         """
-        trace_R = self.A.trace()
-        if np.isclose(trace_R, 3.0):
+        # sin(theta)*[u]x and cos(theta) are read off the matrix, so that the
+        # angle is exact for arbitrarily small rotations (no tolerance shortcut)
+        S = 0.5*(self.A.T - self.A)
+        sin_theta = np.sqrt(S[0, 1]**2 + S[0, 2]**2 + S[1, 2]**2)
+        if sin_theta == 0.0:
             return np.zeros((3, 3))
-        theta = np.arccos((self.A.trace()-1)/2)
-        nom = theta * (self.A.T - self.A)
-        denom = 2*np.sin(theta)
-        logR = nom / denom
-        return logR
+        theta = np.arctan2(sin_theta, 0.5*(self.A.trace() - 1.0))
+        return (theta/sin_theta) * S
 
     @property
     def adjugate(self) -> np.ndarray:
